@@ -119,8 +119,20 @@ def run(chk):
     pay = [x for x in seq if x[0] == 'payload']
     pl = pay[0][2]
     okp = unparse(pl.iter) == 'afs' and len(pay) == 1
-    arg = unparse(pay[0][1].args[0])
+    warg = pay[0][1].args[0]
+    contiguous = False
+    if isinstance(warg, ast.Call) and dotted(warg.func) in ('np.ascontiguousarray', 'np.require') and warg.args:
+        contiguous, warg = True, warg.args[0]
+    elif isinstance(warg, ast.Call) and isinstance(warg.func, ast.Attribute) and warg.func.attr in ('tobytes',) and not warg.args:
+        contiguous, warg = True, warg.func.value
+    arg = unparse(warg)
     adef = [n for n in pl.body if isinstance(n, ast.Assign) and unparse(n.targets[0]) == arg]
+    if adef and isinstance(adef[0].value, ast.Call) and dotted(adef[0].value.func) == 'np.ascontiguousarray' and adef[0].value.args:
+        contiguous = True
+        adef = [ast.Assign(targets=adef[0].targets, value=adef[0].value.args[0], lineno=adef[0].lineno)]
+    chk.check(contiguous, 'C20-R2', PA, Q, 'the payload handed to write() is C-contiguous (np.ascontiguousarray / tobytes)', unparse(pay[0][1])[:60],
+              f'{unparse(pay[0][1])[:60]}: the array read from the file can be a strided view (two columns sharing a block, Fortran order); the binary '
+              'stream\'s write() refuses a non-contiguous buffer AFTER count and width were written: a truncated frame instead of count x width bytes', node=pay[0][1], nontrivial=False)
     okp = okp and len(adef) == 1 and unparse(adef[0].value) == f'{pl.target.id}[data_key][{fld}][:]'
     chk.check(okp, 'C20-R2', PA, Q, 'payload = the field\'s raw array of each file, one write per file', '',
               f'payload loop writes {arg} = {unparse(adef[0].value) if adef else None} over {unparse(pl.iter)}', node=pl)
